@@ -176,3 +176,5 @@ func short(s string, n int) string {
 func fmtPath(p *core.Path, pr *core.Prog) string { return short(p.Describe(pr), 400) }
 
 var _ = fmt.Sprintf
+
+func stringsContains(a, b string) bool { return strings.Contains(a, b) }
